@@ -4,6 +4,9 @@
 (* Break(family, site) and the invariant MutantIllTyped: every edit applied  *)
 (* at every applicable site must produce a program the judgement rejects.    *)
 (* Each certified mutant is emitted as a REPLAY case for the real compiler.  *)
+(* Namesake dimension (section "namesakes"): seeds that declare a type under *)
+(* the name of a built-in type, generated from templates and by renaming     *)
+(* the declared types of the other seeds, plus the families namesake-*.      *)
 (*                                                                           *)
 (* Seeds are written as nested trees with the small constructor vocabulary   *)
 (* below and turned into the node-table form of Typing.tla by Flat.          *)
@@ -15,7 +18,11 @@ EXTENDS Typing, Json, TLC
 
 CONSTANTS NumTys,      \* numeric types the templates are instantiated with
           Families,    \* edit families to apply (all of AllFamilies normally)
-          MaxMembers   \* type-declaration grammar: the subject type has 1..MaxMembers members
+          MaxMembers,  \* type-declaration grammar: the subject type has 1..MaxMembers members
+          NsNames,     \* namesake dimension: built-in type names a script type is declared under
+          NsTys,       \* payload types the namesake templates are instantiated with
+          NsFamilies,  \* edit families applied to the namesake seeds
+          RenameTys    \* seeds instantiated with these types are renamed (a declared type -> a built-in name)
 
 (* ---------------------------------------------------------------- vocabulary *)
 I(v)        == [k |-> "int", v |-> v, suf |-> ""]
@@ -43,6 +50,9 @@ Ctor(en, v, args) == [k |-> "ctor", en |-> en, v |-> v, args |-> args, call |-> 
 Ctor0(en, v) == [k |-> "ctor", en |-> en, v |-> v, args |-> <<>>, call |-> FALSE]
 Some(e)     == Ctor("Option", "Some", <<e>>)
 None        == Ctor0("Option", "None")
+(* the bare constructors (en = ""): the built-in Option also where the script declares an Option of its own *)
+SomeB(e)    == Ctor("", "Some", <<e>>)
+NoneB       == Ctor0("", "None")
 Fe(n, e)    == [n |-> n, e |-> e]
 Rec(n, fs)  == [k |-> "rec", n |-> n, fs |-> fs]
 Fld(e, f)   == [k |-> "fld", e |-> e, f |-> f]
@@ -368,7 +378,8 @@ SFm(t) == <<
          Arm("None", <<>>, BlkU(<<>>))>>)>>, Ret0("reject"))),
   Fn("mkmsg", <<Pm("x", T(t))>>, Named("Msg"), Blk(<<>>, Rec("Msg", <<Fe("v", V("x")), Fe("ok", Bin("ge", V("x"), L(t, 1)))>>)))>>
 
-Seed(name, ds) == [name |-> name, prog |-> Flat(ds)]
+(* cls: "plain" | "base" (a seed the renaming operator is applied to) | "ns" (a seed that declares a namesake) *)
+Seed(name, ds) == [name |-> name, prog |-> Flat(ds), cls |-> "plain"]
 
 (* scopes: lets of scalar, String and List type in then / else-if / else blocks, nested blocks, *)
 (* match arms, loop bodies; every name is unique in its function                                 *)
@@ -424,7 +435,134 @@ TyDecl(kind, sq) ==
 TypeSeeds == {Seed("ty_" \o kind \o "_" \o Code(sq), TyHelpers \o <<TyDecl(kind, sq)>>) : kind \in {"record", "enum"}, sq \in ShapeSeqs}
 
 
-Seeds ==
+(* ------------------------------------------------------------------ namesakes *)
+(* The namesake dimension: a script type declared under the name of a built-in  *)
+(* type (Typing.tla, "name resolution").  Two generators of well-typed seeds:    *)
+(*  (a) templates SNs(N, kind, t): the type N (record / enum / generic enum) is  *)
+(*      declared, built, taken apart, copied, passed and returned, written both  *)
+(*      as Named(N) and as the bare primitive name; the SAME module also uses    *)
+(*      the built-in N through the forms that cannot be shadowed (literals,      *)
+(*      operators, `T?`, bare Some / None, `?`, filtermap verdicts, for loops);  *)
+(*  (b) the renaming operator Rename(P, old, N) applied to the seeds that        *)
+(*      declare types: the judgement decides whether the renamed program is      *)
+(*      still well typed (then it is a seed, class "ns") or not (then it is a    *)
+(*      certified mutant of the family namesake-shadow, e.g. record bool with a  *)
+(*      field of type bool is recursive, Option.Some(x) builds the script's      *)
+(*      Option where a `T?` is expected).                                        *)
+SomeFor(N, e) == IF N = "Option" THEN SomeB(e) ELSE Some(e)
+NsVars(N) == CASE N = "Option"  -> <<"None", "Some">>
+               [] N = "Verdict" -> <<"Reject", "Accept">>
+               [] N = "Result"  -> <<"Err", "Ok">>
+               [] OTHER         -> <<"Nil", "Val">>
+(* the namesake written as the bare primitive name: the same type after resolution *)
+NsW(N) == IF N \in PrimK THEN T(N) ELSE Named(N)
+
+(* legal uses of the BUILT-IN called N in a module that declares its own N *)
+NsBuiltinUse(N, t) ==
+  CASE N = "Option" -> <<
+         Fn("bo", <<Pm("o", Opt(T(t)))>>, Opt(T(t)), Blk(<<Let("h", T(t), Try(V("o")))>>,
+            If(Bin("gt", V("h"), L(t, 1)), Blk(<<>>, SomeB(V("h"))), Blk(<<>>, NoneB)))),
+         Fn("bm", <<Pm("o", Opt(Opt(T(t))))>>, T(t), Blk(<<>>, Match(V("o"), <<
+            Arm("Some", <<"q">>, Blk(<<>>, Match(V("q"), <<Arm("Some", <<"r">>, Blk(<<>>, V("r"))), Arm("None", <<>>, Blk(<<>>, L(t, 1)))>>))),
+            Arm("None", <<>>, Blk(<<>>, L(t, 2)))>>)))>>
+    [] N = "String" -> <<
+         Fn("bs", <<Pm("a", T(t))>>, T(t), Blk(<<LetI("s", Bin("add", S("a"), S("b"))), LetI("u", Bin("add", V("s"), S("c")))>>,
+            If(Bin("eq", V("u"), S("abc")), Blk(<<>>, V("a")), Blk(<<>>, L(t, 1)))))>>
+    [] N = "bool" -> <<
+         Fn("bb", <<Pm("a", T(t))>>, T(t), Blk(<<LetI("c", Bin("and", Bin("gt", V("a"), L(t, 1)), Not(B(FALSE))))>>,
+            If(Bin("or", V("c"), B(TRUE)), Blk(<<>>, V("a")), Blk(<<>>, L(t, 1)))))>>
+    [] N \in IntK -> <<
+         Fn("bn", <<Pm("a", T(t))>>, T(t), Blk(<<LetI("k", Bin("add", IS(1, N), IS(2, N)))>>,
+            If(Bin("lt", V("k"), IS(3, N)), Blk(<<>>, V("a")), Blk(<<>>, L(t, 1)))))>>
+    [] N \in FloatK -> <<
+         Fn("bn", <<Pm("a", T(t))>>, T(t), Blk(<<LetI("k", Bin("mul", FS("1.5", N), FS("2.5", N)))>>,
+            If(Bin("lt", V("k"), FS("7.0", N)), Blk(<<>>, V("a")), Blk(<<>>, L(t, 1)))))>>
+    [] N = "List" -> <<
+         Fn("bl", <<Pm("a", T(t))>>, T(t), Blk(<<
+            LetI("l", Bin("add", Lst(<<V("a")>>), Lst(<<L(t, 1)>>))),
+            Let("tot", T(t), V("a")),
+            For("e", V("l"), BlkU(<<CAsg("add", <<"tot">>, V("e"))>>))>>, V("tot")))>>
+    [] N = "Verdict" -> <<
+         Fm("bf", <<Pm("a", T(t))>>, Blk(<<>>,
+            If(Bin("lt", V("a"), L(t, 3)), Blk(<<>>, Ret("accept", V("a"))), Blk(<<>>, Ret("reject", V("a")))))),
+         Fn("bv", <<Pm("b", T(t))>>, T(t), Blk(<<>>, Match(Call("bf", <<V("b")>>), <<
+            Arm("Accept", <<"v">>, Blk(<<>>, V("v"))),
+            Arm("Reject", <<"r">>, Blk(<<>>, V("r")))>>)))>>
+    [] N = "IpAddr" -> <<
+         Fn("bi", <<Pm("n", T("u8"))>>, T("Prefix"), Blk(<<LetI("i", Ip(1))>>, Bin("div", V("i"), V("n"))))>>
+    [] OTHER -> <<>>
+
+NsMix(N, ty, t, e) ==
+  Fn("mix", <<Pm("x", ty), Pm("o", Opt(T(t)))>>, Opt(T(t)), Blk(<<Let("h", T(t), Try(V("o")))>>, SomeFor(N, e)))
+
+SNs(N, kind, t) ==
+  LET v1 == NsVars(N)[1]
+      v2 == NsVars(N)[2]
+      G  == Gen(N, <<T(t)>>)
+  IN
+  CASE kind = "record" -> <<
+         RecordD(N, <<Pm("v", T(t)), Pm("w", T(t))>>),
+         Fn("mk", <<Pm("a", T(t))>>, Named(N), Blk(<<>>, Rec(N, <<Fe("v", V("a")), Fe("w", L(t, 2))>>))),
+         Fn("co", <<Pm("a", T(t))>>, NsW(N), Blk(<<>>, Rec("", <<Fe("w", L(t, 1)), Fe("v", V("a"))>>))),
+         Fn("get", <<Pm("x", Named(N))>>, T(t), Blk(<<>>, Bin("add", Fld(V("x"), "v"), Fld(V("x"), "w")))),
+         Fn("upd", <<Pm("x", NsW(N)), Pm("a", T(t))>>, Named(N),
+            Blk(<<Let("y", NsW(N), V("x")), Asg(<<"y", "v">>, V("a"))>>, V("y"))),
+         NsMix(N, Named(N), t, Bin("add", V("h"), Call("get", <<V("x")>>))),
+         Fn("use", <<Pm("a", T(t))>>, T(t), Blk(<<>>, Call("get", <<Call("upd", <<Call("co", <<V("a")>>), L(t, 3)>>)>>)))>>
+         \o NsBuiltinUse(N, t)
+    [] kind = "enum" -> <<
+         EnumD(N, <<Vr(v1, <<>>), Vr(v2, <<T(t)>>)>>),
+         Fn("mk", <<Pm("a", T(t))>>, Named(N), Blk(<<>>,
+            If(Bin("gt", V("a"), L(t, 1)), Blk(<<>>, Ctor(N, v2, <<V("a")>>)), Blk(<<>>, Ctor0(N, v1))))),
+         Fn("get", <<Pm("x", Named(N))>>, T(t), Blk(<<>>, Match(V("x"), <<
+            Arm(v2, <<"p">>, Blk(<<>>, V("p"))),
+            Arm(v1, <<>>, Blk(<<>>, L(t, 2)))>>))),
+         Fn("upd", <<Pm("x", NsW(N)), Pm("a", T(t))>>, Named(N),
+            Blk(<<Let("y", NsW(N), V("x")), Asg(<<"y">>, Call("mk", <<V("a")>>))>>, V("y"))),
+         NsMix(N, Named(N), t, Bin("add", V("h"), Call("get", <<V("x")>>))),
+         Fn("use", <<Pm("a", T(t))>>, T(t), Blk(<<>>, Call("get", <<Call("upd", <<Call("mk", <<V("a")>>), L(t, 3)>>)>>)))>>
+         \o NsBuiltinUse(N, t)
+    [] kind = "genum" -> <<
+         (* a generic enum: this fragment has no expressions that build or match generic values, they are passed on *)
+         [k |-> "enum", n |-> N, tp |-> <<"T">>, vs |-> <<Vr(v1, <<>>), Vr(v2, <<TPar("T")>>)>>],
+         Fn("idg", <<Pm("x", G), Pm("y", G), Pm("a", T(t))>>, G, Blk(<<Let("z", G, V("x"))>>,
+            If(Bin("gt", V("a"), L(t, 1)), Blk(<<>>, V("z")), Blk(<<>>, V("y"))))),
+         Fn("twice", <<Pm("u", G), Pm("b", T(t))>>, G,
+            Blk(<<>>, Call("idg", <<V("u"), Call("idg", <<V("u"), V("u"), V("b")>>), V("b")>>))),
+         NsMix(N, G, t, V("h"))>>
+         \o NsBuiltinUse(N, t)
+
+NsKinds == {"record", "enum", "genum"}
+NsSeed(name, prog) == [name |-> name, prog |-> prog, cls |-> "ns"]
+NsSeeds == {NsSeed("ns_" \o c[1] \o "_" \o c[2] \o "_" \o c[3], Flat(SNs(c[1], c[2], c[3]))) :
+              c \in {d \in NsNames \X NsKinds \X NsTys : d[1] # d[3]}}
+
+(* consistent renaming of the declared type `old` *)
+RECURSIVE RenTy(_, _, _)
+RenTy(t, old, new) ==
+  CASE t.k = "named" -> IF t.n = old THEN Named(new) ELSE t
+    [] t.k \in {"opt", "list"} -> [t EXCEPT !.a = RenTy(t.a, old, new)]
+    [] t.k = "gen" -> [k |-> "gen", n |-> IF t.n = old THEN new ELSE t.n, as |-> [x \in DOMAIN t.as |-> RenTy(t.as[x], old, new)]]
+    [] OTHER -> t
+RenPs(ps, old, new) == [x \in DOMAIN ps |-> [n |-> ps[x].n, t |-> RenTy(ps[x].t, old, new)]]
+RenDecl(d, old, new) ==
+  LET e == IF d.n = old THEN [d EXCEPT !.n = new] ELSE d IN
+  CASE d.k = "record" -> [e EXCEPT !.fs = RenPs(d.fs, old, new)]
+    [] d.k = "enum"   -> [e EXCEPT !.vs = [x \in DOMAIN d.vs |->
+                              [n |-> d.vs[x].n, ts |-> [y \in DOMAIN d.vs[x].ts |-> RenTy(d.vs[x].ts[y], old, new)]]]]
+    [] d.k = "const"  -> [e EXCEPT !.t = RenTy(d.t, old, new)]
+    [] d.k = "fn"     -> [e EXCEPT !.ps = RenPs(d.ps, old, new), !.ret = RenTy(d.ret, old, new)]
+    [] d.k = "filtermap" -> [e EXCEPT !.ps = RenPs(d.ps, old, new)]
+RenNode(n, old, new) ==
+  CASE n.k = "let"  -> IF n.t = <<>> THEN n ELSE [n EXCEPT !.t = <<RenTy(n.t[1], old, new)>>]
+    [] n.k = "rec"  -> IF n.n = old THEN [n EXCEPT !.n = new] ELSE n
+    [] n.k = "ctor" -> IF n.en = old THEN [n EXCEPT !.en = new] ELSE n
+    [] OTHER -> n
+Rename(P, old, new) ==
+  [decls |-> [x \in DOMAIN P.decls |-> RenDecl(P.decls[x], old, new)],
+   nodes |-> [x \in DOMAIN P.nodes |-> RenNode(P.nodes[x], old, new)]]
+
+BaseSeeds ==
   {Seed("arith_" \o t \o "_" \o op, SArith(t, op)) : <<t, op>> \in {x \in NumTys \X {"add", "sub", "mul", "div", "mod"} : x[2] \in ArOps(x[1])}}
   \cup {Seed("neg_" \o t, SNeg(t)) : t \in SignedTys}
   \cup {Seed("record_" \o t, SRecord(t)) : t \in NumTys}
@@ -444,6 +582,22 @@ Seeds ==
   \cup {Seed("widths", SWidths)}
   \cup {Seed("ipaddr", SIp)}
   \cup TypeSeeds
+
+RenameBaseNames ==
+  UNION {{"record_" \o t, "enum_" \o t, "nested_" \o t, "shapes_" \o t, "fm_" \o t} : t \in RenameTys}
+  \cup (IF RenameTys = {} THEN {} ELSE {"ipaddr"})
+RenameBases == {s \in BaseSeeds : s.name \in RenameBaseNames}
+TypeDeclIdx0(P) == {x \in DOMAIN P.decls : P.decls[x].k \in {"record", "enum"}}
+RenameCands ==
+  UNION {{[s |-> s.name, x |-> x, new |-> N, prog |-> Rename(s.prog, s.prog.decls[x].n, N)] :
+            x \in TypeDeclIdx0(s.prog), N \in {m \in NsNames : ~HasDecl(s.prog, m)}} : s \in RenameBases}
+RenamedSeeds ==
+  {NsSeed(c.s \o "~" \o c.new \o "@" \o Digit[c.x], c.prog) : c \in {d \in RenameCands : WellTyped(d.prog)}}
+
+Seeds ==
+  {IF s.name \in RenameBaseNames THEN [s EXCEPT !.cls = "base"] ELSE s : s \in BaseSeeds}
+  \cup NsSeeds
+  \cup RenamedSeeds
 
 (* --------------------------------------------------------------- edit operators *)
 NodesOf(P, K)   == {i \in DOMAIN P.nodes : P.nodes[i].k \in K}
@@ -529,7 +683,94 @@ AllFamilies == {"operand-bool", "operand-str", "logic-int", "cond-nonbool", "arg
                 "name-undeclared", "name-out-of-scope", "match-drop-arm", "match-after-default",
                 "match-dup-arm", "neg-unsigned", "exit-forbidden", "assign-non-local", "redeclare",
                 "recursive-type", "recursive-const", "elem-type", "return-type", "let-type", "assign-type",
-                "fallthrough-after-loop", "fallthrough-after-shortcircuit", "cassign-result-type", "match-rename-arm", "name-sibling-scope", "recursive-member"}
+                "fallthrough-after-loop", "fallthrough-after-shortcircuit", "cassign-result-type", "match-rename-arm", "name-sibling-scope", "recursive-member",
+                "namesake-exit", "namesake-operand", "namesake-return", "namesake-arg", "namesake-let", "namesake-field", "namesake-shadow"}
+
+(* --------------------------------------------------------- namesake edit families *)
+(* Each edit confuses a declared namesake with the built-in of the same name at a  *)
+(* position where a typing rule mentions the built-in:                              *)
+(*   namesake-exit     `Some(1)?` / `accept 1` / `reject 1` in a function whose RETURN TYPE is a namesake      *)
+(*   namesake-operand  the built-in's operators applied to a parameter of namesake type (+ - < ! && if while   *)
+(*                     for == / and `?`)                                                                       *)
+(*   namesake-return   a literal of the built-in returned as the namesake; a namesake Option returned as `T?`  *)
+(*   namesake-arg / -let / -field   a literal of the built-in passed / bound / stored as the namesake          *)
+(*   namesake-shadow   a declared type renamed to a built-in name the program also uses as the built-in        *)
+IsNsTy(P, t) == \/ t.k \in {"named", "gen"} /\ t.n \in BuiltinNames /\ TyDeclared(P, t.n)
+                \/ t.k \in PrimK \ {"unit"} /\ TyDeclared(P, t.k)
+NsName(t)    == IF t.k \in {"named", "gen"} THEN t.n ELSE t.k
+NsOf(P)      == {P.decls[x].n : x \in {y \in DOMAIN P.decls : P.decls[y].k \in {"record", "enum"} /\ P.decls[y].n \in BuiltinNames}}
+(* the built-in called N has a literal form *)
+HasLit(N)    == N \in IntK \cup FloatK \cup {"bool", "String", "Option", "List", "IpAddr"}
+BuiltinLit(N) ==
+  CASE N \in IntK    -> IS(1, N)
+    [] N \in FloatK  -> FS("1.5", N)
+    [] N = "bool"    -> B(TRUE)
+    [] N = "String"  -> S("x")
+    [] N = "Option"  -> NoneB
+    [] N = "List"    -> Lst(<<>>)
+    [] N = "IpAddr"  -> Ip(1)
+(* statements applying the operators of the built-in called N to the variable v *)
+OpForms(N, v) ==
+  CASE N = "String" -> <<Bin("add", V(v), V(v)), Bin("add", V(v), S("x")), Bin("add", S("x"), V(v))>>
+    [] N = "bool"   -> <<If1(V(v), BlkU(<<>>)), Not(V(v)), Bin("and", V(v), B(TRUE)), Bin("or", B(FALSE), V(v)), While(V(v), BlkU(<<>>))>>
+    [] N \in SignedK   -> <<Bin("add", V(v), V(v)), Bin("lt", V(v), IS(1, N)), Bin("mod", IS(7, N), V(v)), Neg(V(v))>>
+    [] N \in UnsignedK -> <<Bin("add", V(v), V(v)), Bin("lt", V(v), IS(1, N)), Bin("mod", IS(7, N), V(v))>>
+    [] N \in FloatK -> <<Bin("mul", V(v), V(v)), Bin("ge", FS("1.5", N), V(v)), Neg(V(v))>>
+    [] N = "List"   -> <<For("zz_e", V(v), BlkU(<<>>)), Bin("add", V(v), Lst(<<>>)), Bin("add", Lst(<<>>), V(v))>>
+    [] N = "Option" -> <<Let("zz_o", Opt(T("i32")), V(v)), Bin("eq", V(v), NoneB), Bin("eq", NoneB, V(v))>>
+    [] N = "IpAddr" -> <<Bin("div", V(v), I(8)), Bin("eq", Ip(1), V(v))>>
+    [] OTHER        -> <<>>
+(* prepend a statement given as a nested tree to the body of function-like declaration x *)
+PrependNested(P, x, e) ==
+  LET a == Fl(e, P.nodes)
+      b == P.decls[x].body
+  IN [P EXCEPT !.nodes = [a.ns EXCEPT ![b] = [P.nodes[b] EXCEPT !.ss = <<a.i>> \o @]]]
+NsParams(P, x) == {p \in DOMAIN P.decls[x].ps : IsNsTy(P, P.decls[x].ps[p].t)}
+PlainFns(P)    == {x \in DOMAIN P.decls : P.decls[x].k = "fn"}
+NsSites(P, f) ==
+  IF NsOf(P) = {} THEN {} ELSE
+  CASE f = "namesake-exit" ->
+         {[d |-> x, w |-> w] : x \in {y \in PlainFns(P) : IsNsTy(P, P.decls[y].ret)}, w \in {"try-ret", "accept-ret", "reject-ret"}}
+    [] f = "namesake-operand" ->
+         UNION {UNION {{[d |-> x, p |-> p, w |-> "op", o |-> o] : o \in DOMAIN OpForms(NsName(P.decls[x].ps[p].t), P.decls[x].ps[p].n)}
+                       : p \in NsParams(P, x)} : x \in {y \in DOMAIN P.decls : P.decls[y].k \in {"fn", "filtermap"}}}
+         \cup UNION {{[d |-> x, p |-> p, w |-> "try-operand", o |-> 0] : p \in NsParams(P, x)}
+                     : x \in {y \in PlainFns(P) : P.decls[y].ret.k = "opt"}}
+    [] f = "namesake-return" ->
+         {[d |-> x, p |-> 0, w |-> "lit-ret"] : x \in {y \in PlainFns(P) : IsNsTy(P, P.decls[y].ret) /\ HasLit(NsName(P.decls[y].ret))
+                                                                      /\ P.nodes[P.decls[y].body].last # <<>>}}
+         \cup UNION {{[d |-> x, p |-> p, w |-> "ns-ret"] : p \in {q \in NsParams(P, x) : NsName(P.decls[x].ps[q].t) = "Option"}}
+                     : x \in {y \in PlainFns(P) : P.decls[y].ret.k = "opt" /\ P.nodes[P.decls[y].body].last # <<>>}}
+    [] f = "namesake-arg" ->
+         {[i |-> c[1], x |-> c[2]] : c \in UNION {{j} \X {a \in DOMAIN P.nodes[j].args :
+                  LET pt == DeclOf(P, P.nodes[j].f).ps[a].t IN IsNsTy(P, pt) /\ HasLit(NsName(pt))} :
+               j \in {y \in NodesOf(P, {"call"}) : HasDecl(P, P.nodes[y].f) /\ DeclOf(P, P.nodes[y].f).k \in {"fn", "filtermap"}
+                                                   /\ Len(P.nodes[y].args) = Len(DeclOf(P, P.nodes[y].f).ps)}}}
+    [] f = "namesake-let" ->
+         {[i |-> j] : j \in {y \in NodesOf(P, {"let"}) : P.nodes[y].t # <<>> /\ IsNsTy(P, P.nodes[y].t[1]) /\ HasLit(NsName(P.nodes[y].t[1]))}}
+    [] f = "namesake-field" ->
+         {[i |-> c[1], x |-> c[2]] : c \in UNION {{j} \X {a \in DOMAIN P.nodes[j].fs :
+                  LET dfs == DeclOf(P, P.nodes[j].n).fs IN
+                  HasField(dfs, P.nodes[j].fs[a].n) /\ IsNsTy(P, FieldTy(dfs, P.nodes[j].fs[a].n))
+                  /\ HasLit(NsName(FieldTy(dfs, P.nodes[j].fs[a].n)))} :
+               j \in {y \in NodesOf(P, {"rec"}) : P.nodes[y].n # "" /\ IsRecordTy(P, Named(P.nodes[y].n))}}}
+NsBreak(P, f, s) ==
+  CASE f = "namesake-exit" ->
+         IF s.w = "try-ret" THEN PrependNested(P, s.d, Try(SomeB(I(1))))
+         ELSE PrependNested(P, s.d, Ret(IF s.w = "accept-ret" THEN "accept" ELSE "reject", I(1)))
+    [] f = "namesake-operand" ->
+         LET pm == P.decls[s.d].ps[s.p] IN
+         IF s.w = "op" THEN PrependNested(P, s.d, OpForms(NsName(pm.t), pm.n)[s.o])
+         ELSE PrependNested(P, s.d, Try(V(pm.n)))
+    [] f = "namesake-return" ->
+         IF s.w = "lit-ret" THEN SetNode(P, P.nodes[P.decls[s.d].body].last[1], BuiltinLit(NsName(P.decls[s.d].ret)))
+         ELSE SetNode(P, P.nodes[P.decls[s.d].body].last[1], V(P.decls[s.d].ps[s.p].n))
+    [] f = "namesake-arg" ->
+         SetNode(P, P.nodes[s.i].args[s.x], BuiltinLit(NsName(DeclOf(P, P.nodes[s.i].f).ps[s.x].t)))
+    [] f = "namesake-let" -> SetNode(P, P.nodes[s.i].e, BuiltinLit(NsName(P.nodes[s.i].t[1])))
+    [] f = "namesake-field" ->
+         SetNode(P, P.nodes[s.i].fs[s.x].e, BuiltinLit(NsName(FieldTy(DeclOf(P, P.nodes[s.i].n).fs, P.nodes[s.i].fs[s.x].n))))
+NsFams == {"namesake-exit", "namesake-operand", "namesake-return", "namesake-arg", "namesake-let", "namesake-field"}
 
 (* the rule of the property statement each family breaks *)
 RuleOf(f) ==
@@ -551,10 +792,22 @@ RuleOf(f) ==
     [] f = "elem-type"            -> "element type"
     [] f \in {"return-type", "fallthrough-after-loop", "fallthrough-after-shortcircuit"} -> "return type"
     [] f \in {"let-type", "assign-type", "cassign-result-type"} -> "assigned value type"
+    [] f = "namesake-exit"        -> "?, accept/reject or return where the enclosing item forbids it"
+    [] f = "namesake-operand"     -> "operand type / arithmetic or ordering on non-numbers"
+    [] f = "namesake-return"      -> "return type"
+    [] f = "namesake-arg"         -> "argument type"
+    [] f = "namesake-let"         -> "assigned value type"
+    [] f = "namesake-field"       -> "field type"
+    [] f = "namesake-shadow"      -> "a type that cannot equal the expected one (or a recursive type) through a declaration that shadows a built-in name"
 
 (* the sites at which family f applies to program P *)
 Sites(P, f) ==
-  CASE f = "operand-bool" ->
+  CASE f \in NsFams -> NsSites(P, f)
+    [] f = "namesake-shadow" ->
+         (* the renamings of a declared type to a built-in name that the judgement rejects *)
+         {s \in {[d |-> x, b |-> N] : x \in TypeDeclIdx(P), N \in {m \in NsNames : ~HasDecl(P, m)}} :
+             ~WellTyped(Rename(P, P.decls[s.d].n, s.b))}
+    [] f = "operand-bool" ->
          {[i |-> c] : c \in UNION {{P.nodes[j].l, P.nodes[j].r} : j \in {y \in NodesOf(P, {"bin"}) : P.nodes[y].op \in ArithOrd}}}
          \cup {[i |-> P.nodes[j].e] : j \in NodesOf(P, {"cassign"})}
     [] f = "operand-str" ->
@@ -573,7 +826,7 @@ Sites(P, f) ==
     [] f = "arg-type" ->
          {[i |-> j, x |-> x] : <<j, x>> \in UNION {{j} \X DOMAIN P.nodes[j].args :
                j \in {y \in NodesOf(P, {"call"}) : HasDecl(P, P.nodes[y].f)}
-                    \cup {y \in NodesOf(P, {"ctor"}) : P.nodes[y].en # "Option"}}}
+                    \cup {y \in NodesOf(P, {"ctor"}) : P.nodes[y].en \notin {"Option", ""}}}}
     [] f = "field-unknown" ->
          {[i |-> j, x |-> x] : <<j, x>> \in UNION {{j} \X DOMAIN P.nodes[j].fs : j \in {y \in NodesOf(P, {"rec"}) : P.nodes[y].n # ""}}}
     [] f = "field-dup" ->
@@ -694,7 +947,9 @@ ParamTys(P, j) ==
 
 (* Break(f, s): the program obtained from P by the single edit of family f at site s *)
 Break(P, f, s) ==
-  CASE f = "operand-bool" -> SetNode(P, s.i, B(TRUE))
+  CASE f \in NsFams -> NsBreak(P, f, s)
+    [] f = "namesake-shadow" -> Rename(P, P.decls[s.d].n, s.b)
+    [] f = "operand-bool" -> SetNode(P, s.i, B(TRUE))
     [] f = "operand-str"  -> SetNode(P, s.i, S("x"))
     [] f = "logic-int"    -> SetNode(P, s.i, I(1))
     [] f = "cond-nonbool" -> SetNode(P, s.i, IF s.w = "int" THEN I(1) ELSE S("x"))
@@ -741,13 +996,14 @@ Break(P, f, s) ==
         (CASE s.w \in {"accept", "reject"} -> Prepend(P, s.d, Ret0(s.w))
            [] s.w = "return" -> Prepend(AddNode(P, I(0)), s.d, Ret("return", NewIdx(P)))
            [] s.w = "try" ->
+                (* the built-in Some: written bare where the script declares an Option of its own *)
                 LET Q1 == AddNode(P, I(1))
-                    Q2 == AddNode(Q1, Some(NewIdx(P)))
+                    Q2 == AddNode(Q1, IF TyDeclared(P, "Option") THEN SomeB(NewIdx(P)) ELSE Some(NewIdx(P)))
                 IN Prepend(Q2, s.d, Try(NewIdx(Q1)))
            [] s.w = "return-const" ->
                 [AddNode(P, Ret("return", P.decls[s.d].e)) EXCEPT !.decls[s.d].e = NewIdx(P)]
            [] s.w = "try-const" ->
-                LET Q1 == AddNode(P, Some(P.decls[s.d].e)) IN
+                LET Q1 == AddNode(P, IF TyDeclared(P, "Option") THEN SomeB(P.decls[s.d].e) ELSE Some(P.decls[s.d].e)) IN
                 [AddNode(Q1, Try(NewIdx(P))) EXCEPT !.decls[s.d].e = NewIdx(Q1)])
     [] f = "assign-non-local" ->
         (CASE s.w = "assign"  -> Prepend(AddNode(P, V(P.decls[s.c].n)), s.d, Asg(<<P.decls[s.c].n>>, NewIdx(P)))
@@ -818,9 +1074,14 @@ NoSite == [none |-> TRUE]
 
 MCInit == seed \in Seeds /\ fam = "" /\ site = NoSite /\ stage = "seed"
 
+(* namesake seeds get the families of NsFamilies; the renaming family applies to the base seeds only *)
+FamsOf(sd) == IF sd.cls = "ns" THEN NsFamilies
+              ELSE IF sd.cls = "base" THEN Families
+              ELSE Families \ {"namesake-shadow"}
+
 MCNext ==
   /\ stage = "seed"
-  /\ \E f \in Families : \E s \in Sites(seed.prog, f) :
+  /\ \E f \in FamsOf(seed) : \E s \in Sites(seed.prog, f) :
        /\ fam' = f /\ site' = s /\ stage' = "mutant" /\ seed' = seed
 
 MCSpec == MCInit /\ [][MCNext]_vars
@@ -834,8 +1095,8 @@ MutantIllTyped == stage = "mutant" => ~WellTyped(Mutant)
 
 Emit ==
   IF stage = "seed"
-  THEN PrintT(<<"REPLAY", ToJson([kind |-> "seed", seed |-> seed.name, prog |-> seed.prog])>>)
+  THEN PrintT(<<"REPLAY", ToJson([kind |-> "seed", seed |-> seed.name, prog |-> seed.prog, cls |-> seed.cls, ns |-> NsOf(seed.prog)])>>)
   ELSE PrintT(<<"REPLAY", ToJson([kind |-> "mutant", seed |-> seed.name, family |-> fam, rule |-> RuleOf(fam),
-                                  site |-> site, prog |-> Mutant,
+                                  site |-> site, prog |-> Mutant, cls |-> seed.cls, ns |-> NsOf(Mutant),
                                   lax_rule |-> IF fam \in {"match-dup-arm", "fallthrough-after-loop", "match-rename-arm"} THEN LaxRule(Mutant) ELSE ""])>>)
 =============================================================================
